@@ -1,8 +1,13 @@
-(* ReflectFuelProofs.v — "never recurses forever" for EVERY descriptor set, without any
-   well-formedness hypothesis: the reader never exhausts the fuel [length (d_msgs D) + 1].
-   (Panics are possible without wf_total — see C18_split_name_collision_refuted — and are not
-   excluded here; ReflectProofs excludes them under wf_total.) Same measure as in ReflectProofs:
-   the messages whose key has no entry in the set; every nested build registers a new key first. *)
+(* ReflectFuelProofs.v — two results about the reader from ANY schema-set state, by one induction
+   parametrised over a proposition [PanicOk] ("a Panic outcome is acceptable"):
+   * PanicOk := True, no hypothesis at all: "never recurses forever" for EVERY descriptor set: the
+     reader never exhausts the fuel [length (d_msgs D) + 1];
+   * PanicOk := False, hypothesis: every enum has a value (what protodesc.NewFiles guarantees of a
+     linked set; the only reader panic site left since the guard in buildEnumFieldSchema is
+     buildEnum's sourceValues.Get(0)): the reader neither panics nor runs out of fuel, for every
+     descriptor set whatever its names, and SchemaCache.Schema from any cache state.
+   Same measure as in ReflectProofs: the messages whose key has no entry in the set; every nested
+   build registers a new key first. *)
 From Coq Require Import String List Arith NArith ZArith Bool Lia.
 From J5V.lib Require Import Outcome.
 From J5V.model Require Import ReflectDesc ReflectSchema Reflect ReflectSpec.
@@ -12,14 +17,27 @@ Local Open Scope bool_scope.
 
 Section Fuel.
 Variable D : desc.
+Variable PanicOk : Prop.
+Hypothesis Hne : forall e, In e (d_enums D) -> enum_nonempty e \/ PanicOk.
 
-(* success never removes a key; the fuel is never exhausted *)
+(* success never removes a key; the fuel is never exhausted; a panic only when acceptable *)
 Definition Pw {X} (pr : X -> sset) (st : sset) (o : outcome X) : Prop :=
   match o with
   | Ok x => ext st (pr x)
   | OutOfFuel => False
-  | _ => True
+  | Panic _ => PanicOk
+  | Err _ => True
   end.
+
+Lemma build_enum_w e : In e (d_enums D) ->
+  match build_enum e with Ok _ | Err _ => True | Panic _ => PanicOk | OutOfFuel => False end.
+Proof.
+  intros He. destruct e as [a b c values eo d]. cbn [build_enum].
+  destruct values as [|[first num info dv] rest].
+  - (* an enum without values: only when panics are acceptable *)
+    destruct (Hne _ He) as [Hn|Hp]; [|exact Hp]. exfalso. cbn in Hn. congruence.
+  - destruct (negb (has_suffix s_UNSPECIFIED first)); exact I.
+Qed.
 
 Lemma Pw_bind {X Y} (prx : X -> sset) (pry : Y -> sset) st (o : outcome X) (g : X -> outcome Y) :
   Pw prx st o -> (forall x, ext st (prx x) -> Pw pry (prx x) (g x)) -> Pw pry st (obind o g).
@@ -28,26 +46,37 @@ Proof.
   specialize (Hg x Ho). destruct (g x) as [y| | |]; cbn in *; auto. eapply ext_trans; eauto.
 Qed.
 
+Lemma enum_ref_w st e : In e (d_enums D) -> Pw (fun s : sset => s) st (enum_ref st e).
+Proof.
+  intros He. unfold enum_ref.
+  destruct (lookup st (enum_key e)) as [[|[| |a b c d g]]|]; try exact I; [apply ext_refl|].
+  pose proof (build_enum_w e He) as Hb.
+  destruct (build_enum e) as [r| | |]; cbn [obind Pw]; try exact Hb. apply ext_cons.
+Qed.
+
+(* after enum_ref the entry is a linked enum schema: the type assertion cannot fail *)
+Lemma enum_ref_linked st e st1 :
+  enum_ref st e = Ok st1 -> exists a b c d g, lookup st1 (enum_key e) = Some (Linked (REnum a b c d g)).
+Proof.
+  unfold enum_ref. destruct (lookup st (enum_key e)) as [[|[| |a b c d g]]|] eqn:El; try discriminate.
+  - intros H; inversion H; subst. rewrite El. eauto 10.
+  - destruct e as [a b c values eo d]. cbn [build_enum].
+    destruct values as [|[first num info dv] rest]; [discriminate|].
+    destruct (negb (has_suffix s_UNSPECIFIED first)); [discriminate|]. cbn [obind].
+    intros H; inversion H; subst. rewrite lookup_cons, ref_eqb_refl. eauto 10.
+Qed.
+
 Lemma build_enum_field_w st f x : Pw fst st (build_enum_field D st f x).
 Proof.
   unfold build_enum_field.
   destruct (f_ty f) as [|full|full]; try exact I.
-  destruct (find_enum D full) as [e|]; [|exact I].
-  assert (H1 : Pw (fun s : sset => s) st (match lookup st (enum_key e) with
-                                          | Some _ => Ok st
-                                          | None => obind (build_enum e) (fun r => Ok ((enum_key e, Linked r) :: st))
-                                          end)).
-  { destruct (lookup st (enum_key e)); [apply ext_refl|].
-    destruct e as [a b c values eo d]. cbn [build_enum]. destruct values as [|[first num info dv] rest]; [exact I|].
-    destruct (negb (has_suffix s_UNSPECIFIED first)); [exact I|]. cbn [obind Pw]. apply ext_cons. }
-  eapply (Pw_bind (fun s : sset => s) fst); [exact H1|].
-  intros st1 He1. cbn beta.
-  match goal with |- Pw fst st1 (obind ?o _) => destruct o as [rules| | |] eqn:Eo; cbn [obind Pw fst]; try exact I end.
-  - apply ext_refl.
-  - (* the rules computation has no fuel *)
-    destruct (x_vty x); try discriminate.
-    destruct (lookup st1 (enum_key e)) as [[|[| |a b c d g]]|]; try discriminate.
-    match type of Eo with lift ?r = _ => destruct r; discriminate end.
+  destruct (find_enum D full) as [e|] eqn:Ef; [|exact I].
+  assert (He : In e (d_enums D)) by (eapply find_enum_In; eauto).
+  pose proof (enum_ref_w st e He) as H1.
+  destruct (enum_ref st e) as [st1| | |] eqn:Er; cbn [obind Pw] in *; try exact H1.
+  destruct (enum_ref_linked st e st1 Er) as (a & b & c & d & g & Hl). rewrite Hl.
+  destruct (x_vty x); cbn [obind Pw fst]; try exact H1.
+  match goal with |- context [lift ?r] => destruct r as [v|cls] end; cbn [lift obind Pw fst]; [exact H1|exact I].
 Qed.
 
 Section LevelW.
@@ -63,12 +92,12 @@ Proof.
   destruct (has_prefix s_google_protobuf full); [exact I|].
   destruct (find_msg D full) as [m|] eqn:Ef; [|exact I].
   assert (Hm : In m (d_msgs D)) by (eapply find_msg_In; eauto).
-  destruct (lookup st (msg_key m)) eqn:El; cbn [obind]; [apply ext_refl|].
+  destruct (lookup st (msg_key m)) as [en|] eqn:El; [destruct (is_enum_entry en); cbn [obind]; [exact I|apply ext_refl]|cbn [obind]].
   assert (Hk : has_key st (msg_key m) = false) by (unfold has_key; rewrite El; reflexivity).
   assert (HU' : unvisited D ((msg_key m, Placeholder) :: st) < n)
     by (pose proof (unvisited_cons D st m Placeholder Hm Hk); lia).
   pose proof (Hrec _ m Hm HU') as Hr.
-  destruct (rec ((msg_key m, Placeholder) :: st) m) as [[st1 r]| | |]; cbn [obind Pw fst] in *; try exact I; try contradiction.
+  destruct (rec ((msg_key m, Placeholder) :: st) m) as [[st1 r]| | |]; cbn [obind Pw fst] in *; try exact I; try contradiction; try assumption.
   eapply ext_trans; [apply ext_cons|]. eapply ext_trans; [exact Hr|apply ext_update].
 Qed.
 
@@ -137,7 +166,7 @@ Proof.
   destruct (register_oneofs m st 0 (m_oneofs m)) as [[st1 exs]|cls]; cbn [lift obind]; [|exact I].
   assert (HU1 : unvisited D st1 <= n) by (pose proof (unvisited_ext D _ _ Hreg); lia).
   pose proof (fields_loop_w m (m_fields m) st1 exs HU1) as Hf.
-  destruct (fields_loop D rec m st1 exs (m_fields m)) as [[[st2 exs2] ps]| | |]; cbn [obind Pw pr3 fst snd] in *; try exact I; try contradiction.
+  destruct (fields_loop D rec m st1 exs (m_fields m)) as [[[st2 exs2] ps]| | |]; cbn [obind Pw pr3 fst snd] in *; try exact I; try contradiction; try assumption.
   destruct (existsb ex_pending exs2); cbn [obind]; [exact I|].
   assert (He : ext st (finish_oneofs st2 exs2))
     by (eapply ext_trans; [exact Hreg|]; eapply ext_trans; [exact Hf|apply finish_oneofs_w]).
@@ -164,44 +193,88 @@ Proof.
   assert (HU' : unvisited D ((msg_key m, Placeholder) :: st) < fuel)
     by (pose proof (unvisited_cons D st m Placeholder Hm Hk); lia).
   pose proof (build_msg_w fuel _ m Hm HU') as Hr.
-  destruct (build_msg D fuel ((msg_key m, Placeholder) :: st) m) as [[st1 r]| | |]; cbn [obind Pw fst] in *; try exact I; try contradiction.
+  destruct (build_msg D fuel ((msg_key m, Placeholder) :: st) m) as [[st1 r]| | |]; cbn [obind Pw fst] in *; try exact I; try contradiction; try assumption.
   eapply ext_trans; [apply ext_cons|]. eapply ext_trans; [exact Hr|apply ext_update].
 Qed.
 
-Lemma messages_loop_w fuel : length (d_msgs D) < fuel -> forall ms st, messages_loop D fuel st ms <> OutOfFuel.
+Definition Pc {X} (o : outcome X) : Prop :=
+  match o with Ok _ | Err _ => True | Panic _ => PanicOk | OutOfFuel => False end.
+
+Lemma messages_loop_w fuel : length (d_msgs D) < fuel -> forall ms st, Pc (messages_loop D fuel st ms).
 Proof.
-  intros Hf. induction ms as [|full r IH]; intros st; cbn [messages_loop]; [discriminate|].
-  destruct (find_msg D full) as [m|] eqn:Ef; [|discriminate].
+  intros Hf. induction ms as [|full r IH]; intros st; cbn [messages_loop]; [exact I|].
+  destruct (find_msg D full) as [m|] eqn:Ef; [|exact I].
   assert (Hm : In m (d_msgs D)) by (eapply find_msg_In; eauto).
   assert (HU : unvisited D st < fuel) by (pose proof (unvisited_le_msgs D st); lia).
   pose proof (message_schema_w fuel st m Hm HU) as H.
-  destruct (message_schema D fuel st m) as [[st1 r1]| | |]; cbn [obind]; try discriminate; [apply IH|contradiction].
+  destruct (message_schema D fuel st m) as [[st1 r1]| | |]; cbn [obind Pc Pw] in *; try exact H. apply IH.
 Qed.
 
-Lemma enums_loop_w : forall es st, enums_loop D st es <> OutOfFuel.
+Lemma enums_loop_w : forall es st, Pc (enums_loop D st es).
 Proof.
-  induction es as [|full r IH]; intros st; cbn [enums_loop]; [discriminate|].
-  destruct (find_enum D full) as [e|]; [|discriminate].
+  induction es as [|full r IH]; intros st; cbn [enums_loop]; [exact I|].
+  destruct (find_enum D full) as [e|] eqn:Ef; [|exact I].
+  assert (He : In e (d_enums D)) by (eapply find_enum_In; eauto).
   destruct (lookup st (enum_key e)); [apply IH|].
-  destruct e as [a b c values eo d]. cbn [build_enum]. destruct values as [|[first num info dv] rest]; [discriminate|].
-  destruct (negb (has_suffix s_UNSPECIFIED first)); [discriminate|]. cbn [obind]. apply IH.
+  pose proof (build_enum_w e He) as Hb.
+  destruct (build_enum e) as [root| | |]; cbn [obind Pc]; try exact Hb. apply IH.
 Qed.
 
-(* for every descriptor set, no hypothesis: the reader never runs out of fuel *)
-Theorem reflect_never_out_of_fuel fs : reflect D fs <> OutOfFuel.
+Lemma reflect_w fs : Pc (reflect D fs).
 Proof.
   unfold reflect, reflect_files. destruct (collect fs) as [ms es].
   assert (Hsz : length (d_msgs D) < size D) by (unfold size; lia).
   pose proof (messages_loop_w (size D) Hsz ms []) as H.
-  destruct (messages_loop D (size D) [] ms) as [st| | |]; cbn [obind]; try discriminate; [apply enums_loop_w|contradiction].
+  destruct (messages_loop D (size D) [] ms) as [st| | |]; cbn [obind Pc] in *; try exact H. apply enums_loop_w.
 Qed.
 
-Theorem cache_schema_never_out_of_fuel st m :
-  In m (d_msgs D) -> snd (cache_schema D (size D) st m) <> OutOfFuel.
+Lemma cache_schema_w st m :
+  In m (d_msgs D) -> ext st (fst (cache_schema D (size D) st m)) /\ Pc (snd (cache_schema D (size D) st m)).
 Proof.
   intros Hm. unfold cache_schema.
   assert (HU : unvisited D st < size D) by (pose proof (unvisited_le_msgs D st); unfold size; lia).
   pose proof (message_schema_w (size D) st m Hm HU) as H.
-  destruct (message_schema D (size D) st m) as [[st1 r]| | |]; cbn [snd]; try discriminate. contradiction.
+  destruct (message_schema D (size D) st m) as [[st1 r]| | |]; cbn [fst snd Pc Pw] in *;
+    (split; [try apply ext_refl|try exact I]); exact H.
 Qed.
 End Fuel.
+
+(* ---------------------------------------------------------------- the two instances *)
+(* for every descriptor set, no hypothesis: the reader never runs out of fuel *)
+Theorem reflect_never_out_of_fuel D fs : reflect D fs <> OutOfFuel.
+Proof.
+  pose proof (reflect_w D True (fun e _ => or_intror I) fs) as H.
+  destruct (reflect D fs); cbn in H; try discriminate. contradiction.
+Qed.
+
+Theorem cache_schema_never_out_of_fuel D st m :
+  In m (d_msgs D) -> snd (cache_schema D (size D) st m) <> OutOfFuel.
+Proof.
+  intros Hm. destruct (cache_schema_w D True (fun e _ => or_intror I) st m Hm) as [_ H].
+  destruct (snd (cache_schema D (size D) st m)); cbn in H; try discriminate. contradiction.
+Qed.
+
+(* what protodesc.NewFiles guarantees of every linked set: an enum has at least one value *)
+Definition enums_nonempty (D : desc) : Prop := forall e, In e (d_enums D) -> enum_nonempty e.
+
+(* for every descriptor set whose enums have a value (no condition on names): no panic, no fuel exhaustion *)
+Theorem reflect_total_any_names D : enums_nonempty D -> forall fs,
+  (forall s, reflect D fs <> Panic s) /\ reflect D fs <> OutOfFuel.
+Proof.
+  intros Hne fs. pose proof (reflect_w D False (fun e He => or_introl (Hne e He)) fs) as H.
+  destruct (reflect D fs); cbn in H; try contradiction; split; try discriminate; intros; discriminate.
+Qed.
+
+(* SchemaCache.Schema from ANY cache state (whatever earlier calls, failed or not, left behind) *)
+Theorem cache_schema_total_any_state D : enums_nonempty D -> forall st m, In m (d_msgs D) ->
+  ext st (fst (cache_schema D (size D) st m)) /\
+  (forall s, snd (cache_schema D (size D) st m) <> Panic s) /\ snd (cache_schema D (size D) st m) <> OutOfFuel.
+Proof.
+  intros Hne st m Hm.
+  destruct (cache_schema_w D False (fun e He => or_introl (Hne e He)) st m Hm) as [He H].
+  split; [exact He|].
+  destruct (snd (cache_schema D (size D) st m)); cbn in H; try contradiction; split; try discriminate; intros; discriminate.
+Qed.
+
+(* the hypothesis cannot be dropped: an enum without values makes buildEnum panic (in the model;
+   protodesc.NewFiles rejects such a file, so no linked set has one) *)
